@@ -12,7 +12,7 @@ FILES = C09.FILES + ["src/stereomolgraph/experimental.py"]
 FUNCTIONS = ["copy", "copy-constructors of the four classes", "relabel_atoms(copy=True)", "subgraph", "compose", "enantiomer",
              "reverse_reaction", "reactant", "product", "JSONHandler round trip", "every public mutator as follow-up edit"]
 BOUNDS = {"quick": "source graphs: solver-enumerated family over universe {0,1,2} (C09 quick restrictions); every derivation; both sides; "
-                   "per op kind up to 2 applicable argument tuples",
+                   "per op kind up to 2 applicable argument tuples; JSON reload: the graph loaded first from a payload is edited, a second load of the same payload must be unaffected",
           "thorough": "all decorations, universe {0,1,2,3} for MG/CRG, up to 8 argument tuples per kind"}
 OUTSIDE = "mutation of objects obtained from views by means other than the public mutators (e.g. assigning descriptor attributes)"
 ASSUMPTIONS = ["an edit is a call of a public mutator; state is observed through the snapshot of all public views"]
@@ -68,6 +68,26 @@ def step(cls, k=3, per_kind=4, **sel):
     cname = gl.CLS_NAMES[cls]
     spec = fam.decode(cname, k, sel)
     nchecks = 0
+    # two loads of one JSON payload are independent graphs: editing the first must not show in the second
+    from stereomolgraph.experimental import JSONHandler
+    try:
+        txt = JSONHandler.json_serialize(gl.build(spec))
+        h0 = JSONHandler.json_deserialize(txt)
+    except Exception:
+        h0 = None
+    first = h0
+    for op in ([] if h0 is None else _edits(_cname_of(h0), h0, k, per_kind)):
+        h0 = first if first is not None else JSONHandler.json_deserialize(txt)   # the very first load of this payload is edited, too
+        first = None
+        ref = gl.snap(h0)
+        try:
+            op.real(h0)
+        except Exception:
+            pass
+        h2 = JSONHandler.json_deserialize(txt)
+        d = gl.diff(ref, gl.snap(h2))
+        if d:
+            return f"json reload: after edit {op} on the graph loaded first, loading the same payload again gives a different graph: {d}"
     for dname, derive in derivations(cname):
         try:
             g = gl.build(spec)
